@@ -22,7 +22,7 @@ RULE = ("random pipelines of 1-3 writer probes (each followed by a snapshot prob
         "distinct = distinct (plans, dtypes, schedule, layout, debug) signatures")
 ASSUMPTIONS = ["float buckets are compared by value after lossless widening to float64 (only the image dtype is pinned by the statement)",
                "a bucket not written in some step of a multi-step run must show no data (NaN) for that step"]
-REQUIRED_COUNTERS = ["debug_after_earlier_debug_run", "debug_exactness_checks", "runs", "slices_compared", "time_labels_checked", "image_dtype_checks", "layout_pairs",
+REQUIRED_COUNTERS = ["read_out_flag_cases", "inplace_only_pixel_cases", "photon3d_own_coords_cases", "debug_after_earlier_debug_run", "debug_exactness_checks", "runs", "slices_compared", "time_labels_checked", "image_dtype_checks", "layout_pairs",
                      "debug_pairs", "debug_nodes_compared", "scene_checks", "data_checks", "photon3d_runs"]
 TIMEOUT = {"quick": 600, "thorough": 3000}
 LEVEL_TEXT = ("Exploration by runtime monitoring: each generated run is executed by the real exposure loop; the returned "
@@ -48,7 +48,7 @@ def gen_case(rng, grid=None):
     times = sorted(rng.sample(range(1, 50), n_steps))
     times = [t + rng.choice([0.0, 0.25, 0.5]) for t in times]
     start = rng.choice([0.0, 0.0, 0.5, -2.0])
-    photon = rng.choice(["photon", "photon", "photon3d", None])
+    photon = rng.choice(["photon", "photon", "photon3d", "photon3dc", None])
     dtypes = {"photon": rng.choice(FLOATS), "pixel": rng.choice(FLOATS), "signal": rng.choice(FLOATS),
               "image": rng.choice(UINTS)}
     if grid:
@@ -57,7 +57,7 @@ def gen_case(rng, grid=None):
     n_writers = rng.randint(1, 3)
     slots = sorted(rng.sample(range(len(GROUP_SLOTS)), n_writers))
     writers = []
-    pool = [photon, "charge", rng.choice(["pixel", "pixel+", "pixel+"]), "signal", "scene", "data"]
+    pool = [photon, "charge", rng.choice(["pixel", "pixel+", "pixel+", "pixel@"]), "signal", "scene", "data"]
     for k, slot in enumerate(slots):
         names = [b for b in pool if b and rng.random() < 0.5]
         writers.append({"group": GROUP_SLOTS[slot], "names": names, "seed": rng.randint(0, 10**6)})
@@ -75,7 +75,8 @@ def gen_case(rng, grid=None):
             others = [w for j, w in enumerate(writers) if j != k and b in w["names"]]
             if not others:
                 mixed = {"writer": k, "bucket": b, "step": rng.randrange(n_steps)}
-    return {"times": times, "start": start, "non_destructive": rng.random() < 0.5, "dtypes": dtypes,
+    read_out_off = sorted(rng.sample(range(n_steps), rng.randint(1, n_steps))) if rng.random() < 0.15 else []
+    return {"times": times, "start": start, "non_destructive": rng.random() < 0.5, "dtypes": dtypes, "read_out_off": read_out_off,
             "writers": writers, "mixed": mixed, "rows": rng.randint(1, 4), "cols": rng.randint(1, 5),
             "detector": rng.choice(["ccd", "cmos", "mkid", "apd"])}
 
@@ -97,7 +98,16 @@ def pipeline_spec(case):
             {"name": f"s{k}", "func": "vf.probes.trace", "arguments": {"snap": True}},
         ])
     pspec["data_processing"] = [{"name": "last", "func": "vf.probes.trace", "arguments": {"snap": True}}]
+    if case.get("read_out_off"):
+        pspec["data_processing"].insert(0, {"name": "flag", "func": "vf.checks.c03.flagger",
+                                            "arguments": {"steps": case["read_out_off"]}})
     return pspec
+
+
+def flagger(detector, steps=()):
+    """A model that clears the detector's model-settable `read_out` flag at some readouts."""
+    if int(detector.pipeline_count) in steps:
+        detector.read_out = False
 
 
 def execute(case, hier, debug, prior_debug_run=False):
@@ -308,7 +318,7 @@ def check_debug_nodes(rec, tree, events, case, index):
                 continue
             key = f"/intermediate/time_idx_{step}/{w['group']}/w{k}"
             for b in names:
-                bname = {"photon3d": "photon", "pixel+": "pixel"}.get(b, b)
+                bname = {"photon3d": "photon", "photon3dc": "photon", "pixel+": "pixel", "pixel@": "pixel"}.get(b, b)
                 if bname not in ("photon", "charge", "pixel", "signal", "image"):
                     continue
                 held = snap["buckets"][bname]
@@ -335,7 +345,10 @@ def check_debug_nodes(rec, tree, events, case, index):
 
 def run_one(rec, index, case):
     sig = (case["times"], case["start"], case["dtypes"], [(w["group"], w["names"]) for w in case["writers"]],
-           case["mixed"], case["rows"], case["cols"])
+           case["mixed"], case["rows"], case["cols"], case.get("read_out_off"))
+    rec.count("read_out_flag_cases", int(bool(case.get("read_out_off"))))
+    rec.count("inplace_only_pixel_cases", int(any("pixel@" in w["names"] for w in case["writers"])))
+    rec.count("photon3d_own_coords_cases", int(any("photon3dc" in w["names"] for w in case["writers"])))
     nontrivial = len(case["times"]) >= 2 or len(case["writers"]) >= 2
     has_scene = any("scene" in w["names"] for w in case["writers"])
     try:
@@ -350,7 +363,7 @@ def run_one(rec, index, case):
         rec.case(sig, nontrivial)
         return
     rec.count("runs")
-    if any("photon3d" in w["names"] for w in case["writers"]):
+    if any(("photon3d" in w["names"] or "photon3dc" in w["names"]) for w in case["writers"]):
         rec.count("photon3d_runs")
     rec.observe("image_dtypes", case["dtypes"]["image"])
     rec.observe("float_dtypes", case["dtypes"]["photon"])
@@ -372,7 +385,7 @@ def run_one(rec, index, case):
     rec.count("debug_pairs")
     if prior:
         rec.count("debug_after_earlier_debug_run")
-        mine = {f"w{k}" for k in range(len(case["writers"]))} | {f"s{k}" for k in range(len(case["writers"]))} | {"last"}
+        mine = {f"w{k}" for k in range(len(case["writers"]))} | {f"s{k}" for k in range(len(case["writers"]))} | {"last", "flag"}
         stale = sorted({g for g in tree_d.groups if g.startswith("/intermediate/time_idx_") and g.count("/") == 4
                         and g.rsplit("/", 1)[1] not in mine})
         if stale:
